@@ -31,11 +31,14 @@ Theorem C07_independent_unaffected : forall W s j r, wf W = true -> reachable W 
 Proof. exact independent_unaffected. Qed.
 Print Assumptions C07_independent_unaffected.
 
-(* at the step where wait() completes: it raises iff failedJobs is non-empty iff some job returned ERROR *)
+(* at the step where wait() completes: it raises iff failedJobs is non-empty; then some job returned ERROR; and a
+   job that returned ERROR and is still the registered submission of its identifier (it has not been submitted
+   again: since ccf82b1 a re-submission drops the failure recorded for the identifier) makes it raise *)
 Theorem C07_exit_reports : forall W s l s', wf W = true -> reachable W s -> step W s l = Some s' ->
   wait_completes s s' ->
-  (wst s' = WRaised <-> failed s' <> []) /\
-  (failed s' <> [] <-> exists j, pc (jobs s' j) = PReturned ERROR).
+  (wst s' = WRaised <-> fdict s' <> []) /\
+  (fdict s' <> [] -> exists j, pc (jobs s' j) = PReturned ERROR) /\
+  (forall j, pc (jobs s' j) = PReturned ERROR -> reg s' (j_ident (spec W j)) = Some j -> fdict s' <> []).
 Proof. exact exit_reports. Qed.
 Print Assumptions C07_exit_reports.
 
